@@ -40,6 +40,8 @@ texts = st.one_of(
     st.builds(lambda p, r: p + r, st.sampled_from(["lyric ", "section "]), _joined),
     st.builds(lambda p, r: p + r, st.sampled_from(["lyric ", "section "]), _noquote),
     G.plain_text,
+    st.sampled_from(G.WRAPPED), st.sampled_from(["lyric ", "section ", ""]).flatmap(
+        lambda pre: st.sampled_from(G.WRAPPED).map(lambda w: pre + w)),
     # names with a meaning to the games (candidates for special treatment)
     st.sampled_from(["end", "end", "music_start", "music_end", "phrase_start", "phrase_end", "coda", "idle", "play",
                      "crowd_lighters_fast", "section end", "lyric end", "End", "the end", "solo", "soloend",
